@@ -12,11 +12,18 @@ from vlib.refmodel import Ref
 SRC = bootstrap.SRC
 
 
+class HarnessError(Exception):
+    pass
+
+
 def exc_key(e, stage):
     """Mechanism key of an exception: stage, type, innermost frame inside lcm."""
     tb = traceback.extract_tb(e.__traceback__)
     frames = [x for x in tb if x.filename.startswith(SRC)]
     where = "?"
+    if not frames:
+        # nothing of lcm on the stack: this is a bug of the harness, never a verdict
+        raise HarnessError(f"{type(e).__name__}: {e}") from e
     if frames:
         f = frames[-1]
         where = f"{os.path.basename(f.filename)}:{f.name}"
